@@ -95,6 +95,82 @@ def one(req):
         row = []
         generate(row)
         out.append(row)
+    if req.get("thread"):
+        # other public generator objects are built in between (their own alphabets, their own Random): the module-level
+        # generator behind fake() is not theirs to configure
+        from d42 import schema as _schema
+        from d42.generation import Generator, RegexGenerator
+        batch = [_schema.str.regex(p) for p in (".{12}", "\\d{8}", "\\w{8}", "[^a]{6}", "[a-c]+x.")] + [_schema.str.len(6), _schema.int]
+
+        def run_batch():
+            Random().set_seed(seed)
+            vals = []
+            for b in batch:
+                try:
+                    vals.append(canon(fake(b)))
+                except Exception as e:  # noqa
+                    vals.append("raise:" + type(e).__name__)
+            return vals
+        pre = run_batch()
+        rg = RegexGenerator(Random(), alphabet={"letters": "ab", "digits": "01", "word": "ab", "whitespace": " "})
+        g = Generator(Random(), rg)
+        try:
+            rg.generate("[a-z]\\d.\\w")
+            schemas[0].__accept__(g)
+        except Exception:  # noqa
+            pass
+        post = run_batch()
+        Random().set_seed(seed)
+        row = []
+        generate(row)
+        out.append(row if pre == post else ["building a RegexGenerator / Generator of one's own changed what fake() generates",
+                                            str(pre)[:200], str(post)[:200]])
+    return out
+
+
+def digest(v):
+    import hashlib
+    text = repr(v)
+    return hashlib.sha1(text.encode()).hexdigest()[:12] + " " + text[:40]
+
+
+def at_depth(n, f):
+    """call f() with n more frames on the stack"""
+    if n <= 0:
+        return f()
+    return at_depth(n - 1, f)
+
+
+def deep(req):
+    """{"seed":, "schemas": [...], "depths": [...]} -> per schema [shallow value, value at each stack depth]: a call made
+    deep in the caller's stack either raises RecursionError (Python's limit) or returns what the shallow call returns"""
+    from d42 import fake
+    from d42.generation import Random
+    seed = eval(req["seed"])
+    out = []
+    for src in req["schemas"]:
+        if src.startswith("nest:"):          # schema.list([schema.int, schema.list([schema.int, ...])]), k levels
+            from d42 import schema
+            s = schema.int
+            for _ in range(int(src[5:])):
+                s = schema.list([schema.int, s])
+        else:
+            s = gen.build(src)
+        row = []
+        for d in [0] + list(req["depths"]):
+            Random().set_seed(seed)
+            try:
+                row.append(digest(at_depth(d, lambda: fake(s))))
+            except RecursionError:
+                row.append("raise:RecursionError")
+            except Exception as e:  # noqa
+                row.append("raise:" + type(e).__name__)
+        Random().set_seed(seed)
+        try:
+            row.append(digest(fake(s)))       # and once more shallow, after the deep calls
+        except Exception as e:  # noqa
+            row.append("raise:" + type(e).__name__)
+        out.append(row)
     return out
 
 
@@ -104,7 +180,7 @@ def main():
     if os.environ.get("D42_CHILD_CWD"):
         os.chdir(os.environ["D42_CHILD_CWD"])
     jobs = json.load(sys.stdin)          # list of {"seed": repr, "schemas": [...], "repeat": n}
-    json.dump([one(j) for j in jobs], sys.stdout)
+    json.dump([deep(j) if j.get("depths") else one(j) for j in jobs], sys.stdout)
 
 
 if __name__ == "__main__":
